@@ -57,7 +57,8 @@ def strategy(tier):
         "table": gen.table(1, 12, bulk_max=40, bulk_large=(250, 600)),
         "dims": st.lists(dims3, min_size=7, max_size=7),  # tomogram ids 1..7 (particles use 1..4)
         "ops": st.lists(op(), min_size=1, max_size=6),
-        "int_xyz": st.sampled_from([False, False, False, True]),  # extraction positions stored with an integer dtype (picked voxel indices)
+        "int_xyz": st.sampled_from([False, False, False, True]),
+        "tomo_from_zero": st.sampled_from([False, False, True]),  # extraction positions stored with an integer dtype (picked voxel indices)
     })
 
 
@@ -84,7 +85,7 @@ def dims_table(case, o, tomos_present):
     ids = sorted(set(int(t) for t in tomos_present) | {int(i) for i in rng.choice(np.arange(1, 8), size=int(rng.integers(0, 4)), replace=False)})
     ids = list(rng.permutation(ids))
     tab = np.array([[i] + case["dims"][i - 1] for i in ids], dtype=float)
-    return tab
+    return tab  # (the tomogram number in column 0 is lowered by one by the caller for lists numbered from 0)
 
 
 def run(case):
@@ -95,6 +96,9 @@ def run(case):
     out = Outcome()
     df0 = gen.table_df(case["table"])
     n = len(df0)
+    if case.get("tomo_from_zero"):  # tomograms numbered from 0 (0-based exports of other packages)
+        df0["tomo_id"] = df0["tomo_id"] - 1
+        out.label("tomograms_numbered_from_0")
     if case.get("int_xyz"):
         for c_ in ("x", "y", "z"):
             df0[c_] = np.round(df0[c_].to_numpy()).astype(np.int64)
@@ -130,6 +134,13 @@ def run(case):
         C = np.asarray(C, float)
         if not out.check(C.shape == P.shape, f"{label}:get_coordinates_shape", f"step {step}: {C.shape} for {n} particles"):
             return False
+        for t_ in sorted(set(tomo.tolist()))[:3]:  # the documented per-tomogram form of the accessor
+            ok_t, Ct = call(out, "get_coordinates(tomo_number)", lambda: m.get_coordinates(t_))
+            if ok_t:
+                Ct = np.asarray(Ct, float)
+                sel = tomo == t_
+                if not out.check(Ct.shape == C[sel].shape and np.array_equal(Ct, C[sel]), f"{label}:get_coordinates_of_one_tomogram_differs_from_its_rows", f"step {step}: tomogram {t_}: {Ct.shape} vs {C[sel].shape}"):
+                    return False
         tolp = 1e-9 * np.maximum(1.0, np.abs(P)) * max(1.0, scale_hist) + slack[0] * near_gimbal[:, None]
         bad = np.abs(C - P) > tolp
         if bad.any():
@@ -196,8 +207,24 @@ def run(case):
                 d = case["dims"][0]
                 arg = list(d)
                 zdim = np.full(n, float(d[2]))
+                # one size for all tomograms in any of its documented forms: list, array, 1x3 text file, IMOD tilt.com
+                # (FULLIMAGE nx ny / THICKNESS nz; other entries of the file, e.g. IMAGEBINNED, do not change these numbers)
+                sform = (step + n + int(d[0])) % 5
+                if sform == 1:
+                    arg = np.array(d, dtype=float)
+                elif sform == 2:
+                    np.savetxt("dims_single.txt", np.array([d], dtype=float), fmt="%g")
+                    arg = "dims_single.txt"
+                elif sform >= 3:
+                    with open("tilt.com", "w") as fc:
+                        fc.write("# Command file to run Tilt\n$tilt -StandardInput\nInputProjections ts.ali\nOutputFile ts_full.rec\n"
+                                 + ("IMAGEBINNED %d\n" % (1 if sform == 3 else 4)) + "TILTFILE ts.tlt\nTHICKNESS %d\nRADIAL 0.35 0.035\nFULLIMAGE %d %d\nSHIFT 0.0 0.0\n" % (int(d[2]), int(d[0]), int(d[1])))
+                    arg = "tilt.com"
+                out.label(f"single_dims_form:{['list', 'array', 'text', 'com', 'com_binned'][sform]}")
             else:
-                tab = dims_table(case, o, tomo)
+                tab = dims_table(case, o, tomo + (1 if case.get("tomo_from_zero") else 0))
+                if case.get("tomo_from_zero"):
+                    tab[:, 0] -= 1
                 if o["form"] == "file":
                     # any number format a text file may use: integers, fixed point, numpy's default exponent notation
                     fmt = ["%d", "%.1f", "%.18e", "%g", "%d"][(step + n + len(tab)) % 5]
